@@ -30,6 +30,16 @@ class Person:
         return 'Person<%s>' % (self.name,)
 
 
+class Node:
+    """Protected attributes whose names happen to begin with the class name (only '_Node__x' is a mangled name)."""
+
+    def __init__(self, n):
+        self._Nodes = ['n%d' % i for i in range(n % 3)]
+        self._Node_count = n
+        self._Node = 'self-named'
+        self.__hidden = 'really private'
+
+
 class Child(Person):
     def __init__(self, name, age):
         super().__init__(name, age)
@@ -359,8 +369,12 @@ class GraphGen:
             v = Person('p%d' % r.randrange(9), r.randrange(90), self.value(depth + 1) if r.chance(0.5) else None)
             self.kinds.add('object_private')
         elif c == 7:
-            v = Child('c%d' % r.randrange(9), r.randrange(12))
-            self.kinds.add('object_inherited_private')
+            if r.chance(0.4):
+                v = Node(r.randrange(9))
+                self.kinds.add('object_attrs_named_after_class')
+            else:
+                v = Child('c%d' % r.randrange(9), r.randrange(12))
+                self.kinds.add('object_inherited_private')
         else:
             v = ValueError('msg', self.value(depth + 1))
             self.kinds.add('exception')
